@@ -194,6 +194,18 @@ CHECKS: dict[str, dict] = {
         technique="TLC-enumerated configurations and targets replayed through the real check + TLC trace acceptance against scan",
         ref="5-C12",
     ),
+    "C08": dict(
+        engine="spec/ReportDoc.tla, spec/ReportDocTrace.tla",
+        text="ReportDoc.tla is a state machine that builds report values (files in insertion order at several tree positions, measurements, with / without "
+             "repository, with / without version, root) whose string fields range over 12 string classes (quote, backslash, backslash-quote, newline, tab, "
+             "control, non-ASCII, astral, trailing backslash, JSON-looking text, empty, plain) and states the round-trip laws; TLC enumerates every value with "
+             "at most K non-plain fields; each is instantiated with concrete strings, written by the real ReportWriter (pretty and compact), parsed by Python's "
+             "json, read back by ReportReader and rewritten; TLC judges the laws field by field on interned projections (ReportDocTrace.tla).",
+        note="Structure coverage is exhaustive within the bounds; character-level coverage is per class with a few representatives and json as trusted oracle - "
+             "that part is exploration, not model checking. " + BASE_NOTE,
+        technique="TLC-enumerated report values instantiated and replayed through writer / json / reader + TLC acceptance of the round-trip laws",
+        ref="5-C08",
+    ),
 }
 
 NOT_YET = "check not built yet in this round (see DESIGN.md section 10 for the order of work)"
